@@ -18,7 +18,7 @@ import (
 	"unicode/utf8"
 )
 
-var c17Alphabet = []rune{'*', '?', '+', '[', ']', '-', '!', '\\', '/', '.', 'a', 'b', ' ', '~', '\n', '\r', 'é', 0x01, '\t', 0xFEFF, 0x9C}
+var c17Alphabet = []rune{'*', '?', '+', '[', ']', '-', '!', '\\', '/', '.', 'a', 'b', ' ', '~', '\n', '\r', 'é', 0x01, '\t', 0xFEFF, 0x9C, 0}
 
 type c17Verdict int
 
@@ -39,6 +39,10 @@ func c17Ref(pat string, isRef bool) (c17Verdict, string) {
 		if c == '\n' || c == '\r' {
 			return c17Invalid, "line break"
 		}
+	}
+	if strings.ContainsRune(pat, 0) {
+		// no file or ref name holds a NUL and the documented syntax does not speak of it
+		return c17DontCare, "NUL"
 	}
 	if !isRef && (rs[0] == ' ' || rs[n-1] == ' ') {
 		return c17Invalid, "path starts/ends with space"
@@ -191,8 +195,13 @@ func c17Named(msg string) (rune, bool) {
 		lit = m[1]
 	} else if m := c17RefCharRe.FindStringSubmatch(msg); m != nil {
 		lit = m[1]
+	} else if strings.HasSuffix(msg, ": invalid character NUL") {
+		lit = "NUL" // the scanner library's own complaint
 	} else {
 		return 0, false
+	}
+	if lit == "NUL" {
+		return 0, true
 	}
 	if s, err := strconv.Unquote(lit); err == nil {
 		r, _ := utf8.DecodeRuneInString(s)
@@ -225,7 +234,9 @@ func c17Columns(pat string, isRef bool, errs []InvalidGlobPattern) (string, stri
 			continue
 		}
 		if !isRef && strings.HasPrefix(e.Message, "path value must not") {
-			if e.Column != 0 && e.Column != len(pat) {
+			// a leading space is reported before the first character (column 0), a trailing one at the
+			// last character - counted in characters like every other column
+			if e.Column != 0 && e.Column != len(rs) {
 				return "col-path-space", fmt.Sprintf("%q: space error at column %d", pat, e.Column)
 			}
 			continue
@@ -365,6 +376,10 @@ func c17E2E(r *vReport, pat string) {
 		// the other events that take ref / path filters
 		{"on:\n  merge_group:\n    branches: [" + q + "]\n  pull_request_target:\n    paths: [" + q + "]\n    branches-ignore:\n      - " + q + "\n" + tail, []epos{{3, 16, refE, "ref"}, {5, 13, pathE, "path"}, {7, 9, refE, "ref"}}},
 		{"on:\n  workflow_run:\n    workflows: [w]\n    branches-ignore: [" + q + "]\n  merge_group:\n    branches-ignore:\n      - " + q + "\n  pull_request_target:\n    paths-ignore: [" + q + "]\n    branches: [" + q + "]\n" + tail, []epos{{4, 23, refE, "ref"}, {7, 9, refE, "ref"}, {9, 20, pathE, "path"}, {10, 16, refE, "ref"}}},
+		// events that take no filters (manual, scheduled, called, dispatched) before, between and after
+		// the events that do
+		{"on:\n  workflow_dispatch:\n  push:\n    branches: [" + q + "]\n  schedule:\n    - cron: '0 0 * * *'\n  pull_request:\n    paths: [" + q + "]\n  workflow_call:\n" + tail, []epos{{4, 16, refE, "ref"}, {8, 13, pathE, "path"}}},
+		{"on:\n  repository_dispatch:\n    types: [t]\n  workflow_call:\n  schedule:\n    - cron: '0 0 * * *'\n  workflow_dispatch:\n  pull_request_target:\n    tags-ignore:\n      - " + q + "\n    paths-ignore: [" + q + "]\n" + tail, []epos{{10, 9, refE, "ref"}, {11, 20, pathE, "path"}}},
 	} {
 		c17E2ELayout(r, pat, li, lay.src, func() [][4]any {
 			var out [][4]any
@@ -440,8 +455,8 @@ func TestVerifC17(t *testing.T) {
 	r.Bounds["max_length"] = n
 	r.Bounds["alphabet"] = string(c17Alphabet)
 	r.Bounds["e2e_max_length"] = 3
-	r.Extra["rule"] = "all strings of length <= n over the 21-symbol alphabet, ValidateRefGlob and ValidatePathGlob each compared with the reference validator (accept/reject), ref=>path implication, column oracle; all strings <= 3 (also followed by / preceded by a ${{ }} placeholder, which is ordinary text there) additionally through Linter.Lint in 7 layouts (the same string under ref and path keys of one, two and three events, both orders; lists with empty / null / non-scalar and valid elements around the pattern; push, pull_request, pull_request_target, merge_group, workflow_run); class = (validator, reference verdict, reference reason); non-trivial = invalid by the reference"
-	r.Extra["assumptions"] = []string{"characters outside the alphabet are represented by a, b (ordinary), space/~ (ref-forbidden), \\x01 and TAB (control characters below and next to the line breaks), é (non-ASCII), U+FEFF (a character the scanner library treats specially at the head of its input), U+009C (a C1 control character: ordinary in a ref name, only ASCII controls are forbidden)", "appendix B don't-care classes are not compared"}
+	r.Extra["rule"] = "all strings of length <= n over the 22-symbol alphabet, ValidateRefGlob and ValidatePathGlob each compared with the reference validator (accept/reject), ref=>path implication, column oracle; all strings <= 3 (also followed by / preceded by a ${{ }} placeholder, which is ordinary text there) additionally through Linter.Lint in 9 layouts (the same string under ref and path keys of one, two and three events, both orders; lists with empty / null / non-scalar and valid elements around the pattern; push, pull_request, pull_request_target, merge_group, workflow_run; events without filters - workflow_dispatch, schedule, workflow_call, repository_dispatch - before and between them); class = (validator, reference verdict, reference reason); non-trivial = invalid by the reference"
+	r.Extra["assumptions"] = []string{"characters outside the alphabet are represented by a, b (ordinary), space/~ (ref-forbidden), \\x01 and TAB (control characters below and next to the line breaks), é (non-ASCII), U+FEFF (a character the scanner library treats specially at the head of its input), U+009C (a C1 control character: ordinary in a ref name, only ASCII controls are forbidden), NUL (reachable through \"\\0\"; acceptance is a don't-care, the column of what is reported is not)", "appendix B don't-care classes are not compared"}
 
 	if raw := vReplayInput(); raw != nil {
 		var c struct {
